@@ -921,6 +921,9 @@ func evaluate(s *Scenario, st *runStats) (fail *Failure) {
 			}
 			st.Logical["writes"] += int64(obs.Writes)
 			st.Outcome = uint64(obs.Writes)<<32 ^ uint64(obs.HealthyLen)
+			if obs.StdWriters > 0 {
+				st.Probes["healthy_run_into_bytes.Buffer_strings.Builder_bufio.Writer"]++
+			}
 			if obs.Fired {
 				if s.Writer.FailAt >= 0 {
 					st.Faults["write_failure_at_index"]++
